@@ -63,7 +63,7 @@ def viewOf (ilen : Nat) : Telegram → View
     | .request _ _ => .sc
     | .response _ st =>
       if Diag.Spec.accepts (.data h pdu) then .diag (dflagsOf (flagsOf (.data h pdu))) (sclsOf st)
-      else .data (sclsOf st) (h.dsap == none && h.ssap == none && pdu.length == ilen)
+      else .data (sclsOf st) (dataOkStatus st && h.dsap == none && h.ssap == none && pdu.length == ilen)
 
 def absD (ilen : Nat) : Delivery → AD
   | .ok => .ok
@@ -414,7 +414,7 @@ theorem viewOf_rej {n : Nat} {t : Telegram} (ht : RxOk t) (ha : Diag.Spec.accept
   | token a b => exact Or.inl rfl
   | data h pdu =>
     obtain ⟨st, ss, hfc⟩ := ht
-    exact Or.inr ⟨sclsOf ss, (h.dsap == none && h.ssap == none && pdu.length == n), by simp [viewOf, hfc, ha]⟩
+    exact Or.inr ⟨sclsOf ss, (dataOkStatus ss && h.dsap == none && h.ssap == none && pdu.length == n), by simp [viewOf, hfc, ha]⟩
 
 theorem viewOf_not_sc {n : Nat} {t : Telegram} (ht : RxOk t) (hne : t ≠ .sc) : viewOf n t ≠ .sc := by
   cases t with
@@ -505,16 +505,261 @@ theorem rx_ctl {fp : FdlParams} {p : Peripheral} (hI : PInv fp p) {t : Telegram}
         | (rcases hs with hs | hs <;> simp [viewOf, hfc, ha, hs, hf, mrx, sclsOf])
     · cases ss <;> first
         | (exfalso; simp [dataOkStatus] at hok; done)
-        | (rcases hs with hs | hs <;> simp [viewOf, hfc, ha, hs, hf, mrx, sclsOf, hshape])
+        | (rcases hs with hs | hs <;> simp [viewOf, hfc, ha, hs, hf, mrx, sclsOf, hshape, dataOkStatus])
   | dxLen h pdu st ss hs hf hfc hok hd1 hd2 hl =>
     have ha : Diag.Spec.accepts (.data h pdu) = false := by simp [Diag.Spec.accepts, hd1]
     cases ss <;> first
       | (exfalso; simp [dataOkStatus] at hok; done)
-      | (rcases hs with hs | hs <;> simp [viewOf, hfc, ha, hs, hf, mrx, sclsOf, hd1, hd2, hl])
+      | (rcases hs with hs | hs <;> simp [viewOf, hfc, ha, hs, hf, mrx, sclsOf, hd1, hd2, hl, dataOkStatus])
   | dxData h pdu st ss hs hf hfc hok hd1 hd2 hl =>
     have ha : Diag.Spec.accepts (.data h pdu) = false := by simp [Diag.Spec.accepts, hd1]
     cases ss <;> first
       | (exfalso; simp [dataOkStatus] at hok; done)
-      | (rcases hs with hs | hs <;> simp [viewOf, hfc, ha, hs, hf, mrx, sclsOf, hd1, hd2, hl])
+      | (rcases hs with hs | hs <;> simp [viewOf, hfc, ha, hs, hf, mrx, sclsOf, hd1, hd2, hl, dataOkStatus])
+
+/-! ## Replies of a known kind -/
+
+theorem kindOf_silent {n : Nat} {r : SReply} : kindOf n r = .silent ↔ r = .silent := by
+  cases r with
+  | silent => simp [kindOf]
+  | sc => simp [kindOf]
+  | data h pdu =>
+    simp only [kindOf, reduceCtorEq, iff_false]
+    cases h.fc with
+    | request f q => simp
+    | response st ss =>
+      simp only
+      split
+      · split <;> simp
+      · split
+        · cases ss <;> simp <;> split <;> simp
+        · simp
+
+/-- A well-shaped reply is seen by the master exactly as its kind says. -/
+theorem view_of_kind {n : Nat} {r : SReply} (hk : kindOf n r ≠ .other) :
+    (r.telegram).map (viewOf n) = (kindOf n r).view ∧ (∀ t, r.telegram = some t → RxOk t) := by
+  cases r with
+  | silent => simp [kindOf, SReply.telegram, RK.view]
+  | sc => simp [kindOf, SReply.telegram, RK.view, viewOf, RxOk]
+  | data h pdu =>
+    cases hfc : h.fc with
+    | request f q => simp [kindOf, hfc] at hk
+    | response st ss =>
+      refine ⟨?_, fun t ht => by simp only [SReply.telegram, Option.some.injEq] at ht; subst ht; exact ⟨st, ss, hfc⟩⟩
+      simp only [kindOf, hfc] at hk ⊢
+      simp only [SReply.telegram, Option.map_some, viewOf, hfc]
+      by_cases hsap : h.dsap = some 62 ∧ h.ssap = some 60
+      · rw [if_pos hsap] at hk ⊢
+        by_cases hd : ss = .dataLow ∧ 6 ≤ pdu.length ∧ flagsOf (.data h pdu) &&& PARAMETER_FAULT = 0 ∧
+            flagsOf (.data h pdu) &&& CONFIGURATION_FAULT = 0
+        · rw [if_pos hd]
+          obtain ⟨rfl, hl, h1, h2⟩ := hd
+          have ha : Diag.Spec.accepts (.data h pdu) = true := by
+            simp [Diag.Spec.accepts, hsap.1, hsap.2, hl]
+          rw [if_pos ha]
+          simp only [RK.view, dflagsOf, sclsOf, h1, h2, ne_eq, not_true_eq_false, if_false, Option.some.injEq,
+            View.diag.injEq, and_true]
+          by_cases h3 : flagsOf (.data h pdu) &&& PARAMETER_REQUIRED = 0
+          · by_cases h4 : flagsOf (.data h pdu) &&& STATION_NOT_READY = 0 <;> simp [h3, h4]
+          · simp [h3]
+        · rw [if_neg hd] at hk; exact absurd rfl hk
+      · rw [if_neg hsap] at hk ⊢
+        have ha : Diag.Spec.accepts (.data h pdu) = false := by
+          simp only [Diag.Spec.accepts, decide_eq_false_iff_not]
+          intro hc; exact hsap ⟨hc.1, hc.2.1⟩
+        rw [ha]
+        simp only [Bool.false_eq_true, if_false]
+        by_cases hn : h.dsap = none ∧ h.ssap = none
+        · rw [if_pos hn] at hk ⊢
+          cases ss <;> simp only [] at hk ⊢ <;>
+            first
+            | exact absurd rfl hk
+            | (by_cases hl : pdu.length = n
+               · simp [RK.view, sclsOf, dataOkStatus, hn.1, hn.2, hl]
+               · rw [if_neg hl] at hk; exact absurd rfl hk)
+            | simp [RK.view, sclsOf, dataOkStatus]
+        · rw [if_neg hn] at hk; exact absurd rfl hk
+
+theorem deliver_abs {n : Nat} {r : SReply} (hk : kindOf n r ≠ .other) {d : Delivery}
+    (hd : ∀ t, d = .sub t → RxOk t) :
+    (d.deliver r).map (viewOf n) = (absD n d).deliver (kindOf n r) ∧ (∀ t, d.deliver r = some t → RxOk t) := by
+  obtain ⟨h1, h2⟩ := view_of_kind hk
+  cases d with
+  | ok => exact ⟨h1, h2⟩
+  | lossReq => simp [Delivery.deliver, absD, AD.deliver]
+  | lossRep => simp [Delivery.deliver, absD, AD.deliver]
+  | sub t =>
+    have ht := hd t rfl
+    cases r with
+    | silent => simp [Delivery.deliver, absD, AD.deliver, kindOf]
+    | sc => simp [Delivery.deliver, absD, AD.deliver, kindOf, ht]
+    | data h pdu =>
+      have : kindOf n (.data h pdu) ≠ .silent := fun hc => by simpa using kindOf_silent.mp hc
+      simp [Delivery.deliver, absD, AD.deliver, this, ht]
+
+/-! ## One visit -/
+
+theorem pinv_reqDiag {fp : FdlParams} {p : Peripheral} (h : PInv fp p) : PInv fp (reqDiag p) :=
+  ⟨h.retry_le, h.off_retry, h.fcb, h.ext, h.prm, h.cfg, h.piq, h.addr⟩
+
+theorem matched_of_eq {p p' : Peripheral} {c : SlaveCfg} (h : Matched p c) (ha : p'.address = p.address)
+    (ho : p'.opts = p.opts) (hq : p'.piQ = p.piQ) (hi : p'.piI.length = p.piI.length) : Matched p' c :=
+  ⟨by rw [ha]; exact h.addr, by rw [ho]; exact h.prm, by rw [ho]; exact h.ident, h.identLt,
+   by rw [ho]; exact h.cfg, by rw [hq]; exact h.qlen, by rw [hi]; exact h.ilen⟩
+
+theorem memOf_first (s : Slave) : memOf s .first = none := by
+  simp [memOf, isRetransmission, FrameCountBit.fcv]
+
+/-! ### `cvisit` case by case (for a retry class that is not `over`) -/
+
+theorem cvisit_over (iz : Bool) (c : Core) (mid : Bool) (d : AD) :
+    cvisit iz c .over mid d = ({ c with st := .offline, fcb := .first, mem := none }, .reset, some .offline) := rfl
+
+theorem cvisit_none {iz : Bool} {c : Core} {rc : RCls} (h : rc ≠ .over) (mid : Bool) (d : AD)
+    (hq : reqOf c.st c.dn c.fl rc = none) : cvisit iz c rc mid d = (c, .reset, none) := by
+  cases rc <;> first | exact absurd rfl h | simp [cvisit, hq]
+
+theorem cvisit_lossReq {iz : Bool} {c : Core} {rc : RCls} (h : rc ≠ .over) (mid : Bool) {k : ReqK}
+    (hq : reqOf c.st c.dn c.fl rc = some k) :
+    cvisit iz c rc mid .lossReq =
+      ({ c with dn := c.dn || mid, fl := flAfter c.st c.dn c.fl rc }, .inc, none) := by
+  cases rc <;> first | exact absurd rfl h | simp [cvisit, hq]
+
+theorem cvisit_timeout {iz : Bool} {c : Core} {rc : RCls} (h : rc ≠ .over) (mid : Bool) {d : AD} {k : ReqK}
+    (hq : reqOf c.st c.dn c.fl rc = some k) (hd : d ≠ .lossReq) {ss' : SState} {dp' : Bool} {rk : RK}
+    {mem1 : Option RK} (hsr : sreact iz c.ss c.dp c.mem c.fcb.fcv k = (ss', dp', rk, mem1))
+    (hdel : d.deliver rk = none) :
+    cvisit iz c rc mid d =
+      ({ c with dn := c.dn || mid, fl := flAfter c.st c.dn c.fl rc, ss := ss', dp := dp', mem := mem1 },
+       .inc, none) := by
+  cases rc <;> first
+    | exact absurd rfl h
+    | (cases d <;> first | exact absurd rfl hd | simp [cvisit, hq, hsr, hdel])
+
+theorem cvisit_reply {iz : Bool} {c : Core} {rc : RCls} (h : rc ≠ .over) (mid : Bool) {d : AD} {k : ReqK}
+    (hq : reqOf c.st c.dn c.fl rc = some k) (hd : d ≠ .lossReq) {ss' : SState} {dp' : Bool} {rk : RK}
+    {mem1 : Option RK} (hsr : sreact iz c.ss c.dp c.mem c.fcb.fcv k = (ss', dp', rk, mem1))
+    {v : View} (hdel : d.deliver rk = some v) {r : MRx}
+    (hr : mrx iz c.st (c.dn || mid) (flAfter c.st c.dn c.fl rc) v = r) :
+    cvisit iz c rc mid d =
+      ({ st := r.st, fcb := if r.cycled then cycA c.fcb else c.fcb, dn := r.dn,
+         fl := flAfter c.st c.dn c.fl rc, ss := ss', dp := dp', mem := if r.cycled then none else mem1 },
+       if r.reset then .reset else .inc, r.ev) := by
+  subst hr
+  cases rc <;> first
+    | exact absurd rfl h
+    | (cases d <;> first | exact absurd rfl hd | simp [cvisit, hq, hsr, hdel])
+
+/-- **Simulation of one visit.**  Whatever the payloads, whatever the delivery fault: no panic, the
+invariant is kept, and the control state and the event are those of the control machine. -/
+theorem visit_sim {j : PJ} (hg : Good j) (mid : Bool) {d : Delivery} (hd : ∀ t, d = .sub t → RxOk t) :
+    ∃ j' ev, j.visit mid d = some (j', ev) ∧ Good j' ∧ j'.fp = j.fp ∧ j'.op = j.op ∧ j'.s.cfg = j.s.cfg ∧
+      (ctl j', ev) = cstep j.fp.maxRetry (j.s.cfg.inLen == 0) (ctl j) (.visit mid (absD j.s.cfg.inLen d)) := by
+  obtain ⟨hfp, hop, hI, hm, hs⟩ := hg
+  obtain ⟨p'', hafter, hI''⟩ := tx_pinv (tx_spec hfp hop hI) hI
+  rcases tx_ctl hfp hop hI hm with ⟨hr, htx⟩ | ⟨hr, hq, htx⟩ | ⟨hr, k, h, pdu, hq, htx, hreq⟩
+  · -- retry limit exceeded: declared offline
+    rw [htx] at hafter
+    simp only [PTx.after, Option.some.injEq] at hafter
+    refine ⟨{ j with p := p'' }, some .offline, ?_, ⟨hfp, hop, hI'', ?_, hs⟩, rfl, rfl, rfl, ?_⟩
+    · unfold PJ.visit; rw [htx, hafter]
+    · subst hafter; exact matched_of_eq hm rfl rfl rfl rfl
+    · subst hafter
+      simp only [cstep, cstepCore, ctl, rcls_over hr, cvisit_over, RAct.apply]
+      simp [coreOf, memOf_first]
+  · -- nothing to send
+    rw [htx] at hafter
+    simp only [PTx.after, Option.some.injEq] at hafter
+    have hno : rcls j.fp.maxRetry j.p.retry ≠ .over := by
+      rcases rcls_cases j.fp.maxRetry j.p.retry with ⟨_, hc⟩ | ⟨_, _, hc⟩ | ⟨h1, _⟩
+      · rw [hc]; decide
+      · rw [hc]; decide
+      · omega
+    refine ⟨{ j with p := p'' }, none, ?_, ⟨hfp, hop, hI'', ?_, hs⟩, rfl, rfl, rfl, ?_⟩
+    · unfold PJ.visit; rw [htx, hafter]
+    · subst hafter; exact matched_of_eq hm rfl rfl rfl rfl
+    · subst hafter
+      simp only [cstep, cstepCore, ctl]
+      rw [cvisit_none hno mid _ hq]
+      simp [coreOf, RAct.apply]
+  · -- a request goes out
+    rw [htx] at hafter
+    simp only [PTx.after, Option.some.injEq] at hafter
+    subst hafter
+    have hno : rcls j.fp.maxRetry j.p.retry ≠ .over := by
+      rcases rcls_cases j.fp.maxRetry j.p.retry with ⟨_, hc⟩ | ⟨_, _, hc⟩ | ⟨h1, _⟩
+      · rw [hc]; decide
+      · rw [hc]; decide
+      · omega
+    -- the peripheral after the optional user call
+    obtain ⟨p1, hp1⟩ : ∃ p1, p1 = (if mid then reqDiag (sentP j.p (flAfter j.p.state j.p.diagNeeded j.p.diagInFlight
+        (rcls j.fp.maxRetry j.p.retry))) else sentP j.p (flAfter j.p.state j.p.diagNeeded j.p.diagInFlight
+        (rcls j.fp.maxRetry j.p.retry))) := ⟨_, rfl⟩
+    have hI1 : PInv j.fp p1 := by
+      rw [hp1]; cases mid
+      · exact hI''
+      · exact pinv_reqDiag hI''
+    have hst1 : p1.state = j.p.state ∧ p1.fcb = j.p.fcb ∧ p1.diagNeeded = (j.p.diagNeeded || mid) ∧
+        p1.diagInFlight = flAfter j.p.state j.p.diagNeeded j.p.diagInFlight (rcls j.fp.maxRetry j.p.retry) ∧
+        p1.retry = j.p.retry + 1 ∧ p1.address = j.p.address ∧ p1.opts = j.p.opts ∧ p1.piQ = j.p.piQ ∧
+        p1.piI = j.p.piI := by
+      rw [hp1]; cases mid <;> simp [sentP, reqDiag]
+    obtain ⟨e1, e2, e3, e4, e5, e6, e7, e8, e9⟩ := hst1
+    have hm1 : Matched p1 j.s.cfg := matched_of_eq hm e6 e7 e8 (by rw [e9])
+    by_cases hloss : d = .lossReq
+    · subst hloss
+      refine ⟨{ j with p := p1 }, none, ?_, ⟨hfp, hop, hI1, hm1, hs⟩, rfl, rfl, rfl, ?_⟩
+      · unfold PJ.visit; rw [htx]; simp only; rw [← hp1]
+      · simp only [cstep, cstepCore, ctl, absD]
+        rw [cvisit_lossReq hno mid hq]
+        simp [coreOf, RAct.apply, e1, e2, e3, e4, e5]
+    · -- the slave reacts
+      obtain ⟨hre, hs', hcfg', hstored, hkind⟩ := receive_ctl hs hreq
+      obtain ⟨hdv, hrx⟩ := deliver_abs hkind hd
+      have hd' : absD j.s.cfg.inLen d ≠ .lossReq := by cases d <;> simp [absD] <;> exact hloss rfl
+      have hvis : j.visit mid d =
+          (match d.deliver (j.s.receive h pdu).2 with
+           | none => some ({ j with p := p1, s := (j.s.receive h pdu).1 }, none)
+           | some t =>
+             match p1.receiveReply t with
+             | .panic => none
+             | .ok p2 ev => some ({ j with p := p2, s := (j.s.receive h pdu).1 }, ev)) := by
+        unfold PJ.visit; rw [htx]; simp only; rw [← hp1]
+        cases d <;> first | rfl | exact absurd rfl hloss
+      rw [hvis]
+      cases hdel : d.deliver (j.s.receive h pdu).2 with
+      | none =>
+        rw [hdel] at hdv
+        simp only [Option.map_none] at hdv
+        refine ⟨{ j with p := p1, s := (j.s.receive h pdu).1 }, none, rfl,
+          ⟨hfp, hop, hI1, by simp only [hcfg']; exact hm1, hs'⟩, rfl, rfl, hcfg', ?_⟩
+        simp only [cstep, cstepCore, ctl]
+        rw [cvisit_timeout (c := coreOf j.p j.s) hno mid hq hd' hre.symm hdv.symm]
+        simp [coreOf, RAct.apply, e1, e2, e3, e4, e5]
+      | some t =>
+        rw [hdel] at hdv
+        simp only [Option.map_some] at hdv
+        obtain ⟨p2, ev, hrcv, hI2, f1, f2, f3, f4, f5, f6, f7, f8, f9, f10⟩ := rx_ctl hI1 (hrx t hdel)
+        have hil : p1.piI.length = j.s.cfg.inLen := by rw [e9]; exact hm.ilen
+        rw [hil, e1, e3, e4] at f1 f2 f3 f4 f5
+        refine ⟨{ j with p := p2, s := (j.s.receive h pdu).1 }, ev, by simp only [hrcv],
+          ⟨hfp, hop, hI2, by simp only [hcfg']; exact matched_of_eq hm1 f7 f8 f9 f10, hs'⟩, rfl, rfl, hcfg', ?_⟩
+        obtain ⟨r, hr⟩ : ∃ r, mrx (j.s.cfg.inLen == 0) j.p.state (j.p.diagNeeded || mid)
+          (flAfter j.p.state j.p.diagNeeded j.p.diagInFlight (rcls j.fp.maxRetry j.p.retry))
+          (viewOf j.s.cfg.inLen t) = r := ⟨_, rfl⟩
+        rw [hr] at f1 f2 f3 f4 f5
+        simp only [cstep, cstepCore, ctl]
+        rw [cvisit_reply (c := coreOf j.p j.s) hno mid hq hd' hre.symm hdv.symm hr]
+        have hmem : memOf (j.s.receive h pdu).1 p2.fcb =
+            (if r.cycled then none else memOf (j.s.receive h pdu).1 j.p.fcb) := by
+          rw [f3, e2]
+          split
+          · simp only [memOf]; rw [isRetransmission_cyc hstored]; rfl
+          · rfl
+        simp only [coreOf]
+        rw [Prod.mk.injEq]; refine ⟨?_, f5⟩
+        rw [Ctl.mk.injEq]; refine ⟨?_, ?_⟩
+        · rw [Core.mk.injEq]; exact ⟨f1, by rw [f3, e2], f2, by rw [f6, e4], rfl, hmem, rfl⟩
+        · rw [f4, e5]; cases r.reset <;> simp [RAct.apply]
 
 end PV.Live
